@@ -6,6 +6,7 @@ from collections import Counter
 
 from .. import irtools, repo
 from ..common import AnalysisError, Check, norm_stmt, parse_py
+from ..pyflow import CFG
 from ..ir import (Alt, Cut, Forced, Gather, Group, Item, Lit, Look, Opt, Ref, Rep, Rule, Tok, walk_alt_items,
                   walk_alts)
 
@@ -134,6 +135,119 @@ def rule_w1(chk: Check, ir, include_invalid: bool, rule_id: str, pass1_forks: fr
                  f"[also forked inside: {', '.join(others[:8])}]")
 
 
+def rule_w4(chk: Check, ir):
+    """Opener re-read as a word.  Y is the body of a repetition P: Y+ (both unmemoised).  If an alternative of Y starts by
+    consuming a literal L and then recurses into P/Y without Y having committed (no cut at Y's level), while a *later*
+    alternative of Y accepts L through a token wildcard (OP, NAME, ...), then a failure deep inside the first alternative makes
+    Y swallow L as a plain word and the repetition re-parses everything after L once more: two evaluations of Y at the same
+    position per nesting level."""
+    rules = ir.rules
+
+    def wildcard_kinds(rule_name: str, seen=()) -> set[str]:
+        """Token wildcards a rule can match as its whole (single-token) result."""
+        out: set[str] = set()
+        if rule_name in seen or rule_name not in rules:
+            return out
+        for a in rules[rule_name].alts:
+            cons = [ni.item for ni in a.items if not isinstance(ni.item, (Look, Cut))]
+            if len(cons) != 1:
+                continue
+            it = cons[0]
+            if isinstance(it, Tok) and it.name in ("OP", "ANY_TOKEN", "NAME", "KEYWORD"):
+                out.add(it.name)
+            elif isinstance(it, Ref):
+                out |= wildcard_kinds(it.name, seen + (rule_name,))
+        return out
+
+    def compatible(lit: str, kinds: set[str]) -> bool:
+        word = lit[:1].isalpha() or lit[:1] == "_"
+        return ("ANY_TOKEN" in kinds) or (word and ({"NAME", "KEYWORD"} & kinds)) or (not word and "OP" in kinds)
+
+    def reach_unmemo(start: str, targets: set[str]) -> bool:
+        seen, todo = set(), [start]
+        while todo:
+            v = todo.pop()
+            if v in targets:
+                return True
+            if v in seen or v not in rules or memoised(rules[v]):
+                continue
+            seen.add(v)
+            for a in rules[v].alts:
+                for it in walk_alt_items(a):
+                    if isinstance(it, Ref):
+                        todo.append(it.name)
+        return False
+
+    def openers(alt_items, committed: bool, depth=0):
+        """(literal, items after it, committed?) for the ways an item sequence can start by consuming a literal."""
+        out = []
+        for idx, ni in enumerate(alt_items):
+            it = ni.item
+            if isinstance(it, Look):
+                continue
+            if isinstance(it, Cut):
+                committed = True
+                continue
+            if isinstance(it, Lit):
+                rest = alt_items[idx + 1:]
+                c = committed or (bool(rest) and isinstance(rest[0].item, Cut) and False)
+                out.append((it.value, rest, committed))
+            elif isinstance(it, Ref) and it.name in rules and not memoised(rules[it.name]) and depth < 3:
+                for b in rules[it.name].alts:
+                    # a cut inside the referenced rule commits that rule only, not the caller
+                    for lit, rest, _c in openers(b.items, False, depth + 1):
+                        out.append((lit, rest, committed))
+            break
+        return out
+
+    # repetitions P: Y+ with both unmemoised
+    pairs = set()
+    for P in rules.values():
+        if memoised(P):
+            continue
+        for a in P.alts:
+            for ni in a.items:
+                it = ni.item
+                if isinstance(it, Rep) and isinstance(it.item, Ref) and it.item.name in rules and not memoised(rules[it.item.name]):
+                    pairs.add((P.name, it.item.name))
+    chk.units["unmemoised_repetitions"] = sorted(f"{p}: {y}+" for p, y in pairs)
+    for pname, yname in sorted(pairs):
+        Y = rules[yname]
+        for i, a in enumerate(Y.alts):
+            if a.invalid_guard:
+                continue
+            later = set()
+            for b in Y.alts[i + 1:]:
+                cons = [ni.item for ni in b.items if not isinstance(ni.item, (Look, Cut))]
+                if len(cons) == 1 and isinstance(cons[0], Ref):
+                    later |= wildcard_kinds(cons[0].name)
+                elif len(cons) == 1 and isinstance(cons[0], Tok) and cons[0].name in ("OP", "ANY_TOKEN", "NAME", "KEYWORD"):
+                    later.add(cons[0].name)
+            if not later:
+                continue
+            # does Y commit at its own level before the nested content?  a leading `&(..) ~` or `L ~` does
+            for lit, rest, committed in openers(a.items, False):
+                chk.count("W4-opener-reread")
+                key = f"reread:{yname}#alt{i}:{lit}"
+                if not compatible(lit, later):
+                    chk.ok("W4-opener-reread", key, str(a.pos))
+                    continue
+                y_commits = committed or any(isinstance(ni.item, Cut) for ni in a.items)
+                nxt = next((ni.item for ni in rest if not isinstance(ni.item, (Cut, Look))), None)
+                recursive = False
+                for it in ([nxt] if nxt is not None else []):
+                    for sub in ([it] if isinstance(it, Ref) else [x for x in _walk(it) if isinstance(x, Ref)]):
+                        if reach_unmemo(sub.name, {pname, yname}):
+                            recursive = True
+                if recursive and not y_commits:
+                    chk.fail("W4-opener-reread", key, str(a.pos),
+                             f"`{yname}` alternative {i} consumes `{lit}` and recurses into `{pname}` without `{yname}` having committed; a "
+                             f"later alternative of `{yname}` accepts `{lit}` as a plain word ({sorted(later)}), so when the nested part "
+                             f"fails the opener is swallowed as a word and `{pname}` parses the rest again: work doubles per nesting level")
+                else:
+                    chk.ok("W4-opener-reread", key, str(a.pos))
+
+
 def rule_w2(chk: Check):
     sub = parse_py(repo.SUBHEADER)
     for wname, inner in (("memoize", "memoize_wrapper"), ("memoize_left_rec", "memoize_left_rec_wrapper")):
@@ -172,6 +286,19 @@ def rule_w2(chk: Check):
         chk.count("W2-cache-hit")
         stores = [n for n in ast.walk(fn) if isinstance(n, ast.Assign) and any(norm_stmt(t) == "self._cache[key]" for t in n.targets)]
         chk.require(bool(stores), "W2-cache-hit", f"{inner}:store", where, "a miss must store (tree, endmark) under the key")
+        # ... on every path: whatever the rule returned (failures included) must be cached, otherwise each enclosing rule
+        # asks again for the same failing sub-parse
+        cfg = CFG(fn)
+        runs = [c.id for c in cfg.nodes if c.stmt is not None and c.kind == "stmt" and any(
+            isinstance(x, ast.Call) and isinstance(x.func, ast.Name) and x.func.id == "method" for x in ast.walk(c.stmt))
+            and not isinstance(c.stmt, (ast.FunctionDef,))]
+        final_stores = [c.id for c in cfg.nodes if c.stmt is not None and isinstance(c.stmt, ast.Assign) and any(
+            norm_stmt(t) == "self._cache[key]" for t in c.stmt.targets) and norm_stmt(c.stmt.value).startswith(("(tree, endmark)", "tree, endmark"))]
+        chk.count("W2-cache-hit")
+        ok = bool(runs) and bool(final_stores) and all(cfg.must_pass(r, [cfg.exit.id], final_stores) for r in runs)
+        chk.require(ok, "W2-cache-hit", f"{inner}:store-on-all-paths", where,
+                    "after running the rule body the result must be stored on every path (a skipped store — e.g. for failures, or only "
+                    "in one pass — makes every enclosing rule repeat the sub-parse: work multiplies per nesting level)")
     # parse(): second pass at most once, not inside a loop
     parser = repo.find_class(sub, "Parser")
     parse = repo.find_func(parser, "parse")
@@ -230,6 +357,7 @@ def run(chk: Check):
         rule_w1(chk, ir, True, "W1-memo-barrier-pass2", p1)
     rule_w2(chk)
     rule_w3(chk, ir)
+    rule_w4(chk, ir)
     chk.floor("W1-memo-barrier", 150)
     chk.floor("W2-cache-hit", 9)
     chk.floor("W3-consuming-repetition", 100)
